@@ -33,6 +33,8 @@ type IDParams struct {
 	Mode     string `json:"mode"` // seid | seidgen | teid | burst
 	Rounds   int    `json:"rounds"`
 	Scripts  string `json:"scripts"` // mode seidgen: file with the source prefixes TLC generated from SeidScript.tla
+	Shard    int    `json:"shard"`   // mode seidgen: the prefixes whose index is Shard modulo Of
+	Of       int    `json:"of"`
 }
 
 func simpleSession(cp uint64, ue uint32, nChoose int) *e2e.SessReq {
@@ -204,9 +206,13 @@ func e2eIDsWorker(args []string) error {
 
 		w.Del("p1", &e2e.SessReq{Hdr: val["D"]})
 
-		for _, sc := range scripts {
+		for si, sc := range scripts {
 			if w.Died {
 				break
+			}
+
+			if p.Of > 1 && si%p.Of != p.Shard {
+				continue
 			}
 
 			vs := make([]uint64, 0, len(sc)+1)
@@ -351,10 +357,16 @@ func C07(c *core.Ctx) {
 			c.AddCount("gen_scripts", int64(n))
 			c.AddTLC("gen", gr)
 
-			specs = append(specs, func(i int) (string, interface{}) {
-				dir, trace := shardDir(c, i)
-				return "e2e-ids", IDParams{Dir: dir, Trace: trace, AgentBin: filepath.Join(c.BinDir, "verif-agent"), N4Addr: n4For(i), Seed: c.Seed*1000 + 290, Mode: "seidgen", Scripts: scripts}
-			})
+			const genShards = 5
+
+			for k := 0; k < genShards; k++ {
+				k := k
+				specs = append(specs, func(i int) (string, interface{}) {
+					dir, trace := shardDir(c, i)
+					return "e2e-ids", IDParams{Dir: dir, Trace: trace, AgentBin: filepath.Join(c.BinDir, "verif-agent"), N4Addr: n4For(i), Seed: c.Seed*1000 + 290 + int64(k), Mode: "seidgen",
+						Scripts: scripts, Shard: k, Of: genShards}
+				})
+			}
 		}
 	}
 
